@@ -188,6 +188,37 @@ func (p *Program) regionOwner(fn *ssa.Function) *ssa.Function {
 	return fn
 }
 
+// partOfNamed: fn is the declared function `name` of its package, or a private part of it (the chain of single users
+// that regionOwner follows passes through it).
+func (p *Program) partOfNamed(fn *ssa.Function, name string) bool {
+	fn = outermost(fn)
+	for hops := 0; hops < 4; hops++ {
+		if fn.Name() == name {
+			return true
+		}
+		if obj := fn.Object(); obj == nil || obj.Exported() {
+			return false
+		}
+		var user *ssa.Function
+		n := 0
+		for _, cs := range p.realCallers(fn) {
+			u := outermost(cs.Parent())
+			if u == fn {
+				continue
+			}
+			if u != user {
+				user = u
+				n++
+			}
+		}
+		if n != 1 || fnPkgPath(user) != fnPkgPath(fn) || !p.inRegion(user, fn) {
+			return false
+		}
+		fn = user
+	}
+	return fn.Name() == name
+}
+
 // regionTop: the declared (non-literal) functions of the region, fn first.
 func (p *Program) regionTop(fn *ssa.Function) []*ssa.Function {
 	var out []*ssa.Function
